@@ -104,6 +104,12 @@ add("C01", "pysym+jaxpr2smt",
     "canonical executor order (justified by C02); simulated clock; times/delays quantified over the 1 ns grid; InputState.push by its list semantics (decided in C03); node.step an opaque deterministic function",
     "DESIGN.md §6 C01")
 
+add("C16", "pysym",
+    "bounded symbolic execution of the unmodified BaseNode/Connection phase, phase_output, set_delay, info, from_info, connect_from_info on z3-backed proxies (expected delays as solver symbols, delay distributions as pure-python stand-ins); DAG shapes and skip labellings enumerated; z3 decides phase == longest non-skipped path against an explicit path-enumeration oracle; counterexamples replayed with floats",
+    "For every DAG on <= 3(4) nodes, (sampled) skip labellings and all expected delays in [0,1]: node.phase is the longest expected-delay path over non-skipped connections (0 for sources), phase_output/connection.phase follow; set_delay(delay=..) and set_delay(delay_dist=..) on nodes and connections take effect in phases, runtime objects and infos; from_info+connect_from_info rebuild equal infos/phases/connections; un-skipped cycles raise the algebraic-loop error; default expected delay = 99th percentile, negative rejected.",
+    "delay distributions are stand-ins exposing quantile/mean; one set_delay per node/connection after construction; expected delays on the 1us grid",
+    "DESIGN.md §6 C16")
+
 def main():
     checks = []
     for pid in sorted(CHECKS):
